@@ -193,8 +193,11 @@ def run(chk, ctx) -> None:
         writes = [(n, _arm_name(parms, n)) for n in walk_no_nested(pf.node)
                   if isinstance(n, ast.Assign) and isinstance(n.targets[0], ast.Name) and n.targets[0].id == prev]
         arms_w = sorted(a for _, a in writes)
+        # ... at every separator: the write is a statement of the arm itself, not of a condition inside it
+        sep_body = parms.get('BOARD_DEALING', (None, []))[1]
         facts['baseline_moves_at_separator_only'] = arms_w == ['BOARD_DEALING', 'init'] and all(
-            (isinstance(n.value, ast.Constant) and n.value.value == 0) or (isinstance(n.value, ast.Name) and n.value.id == maxv) for n, _ in writes)
+            (isinstance(n.value, ast.Constant) and n.value.value == 0) or (isinstance(n.value, ast.Name) and n.value.id == maxv) for n, _ in writes) \
+            and all(any(n is st for st in sep_body) for n, a in writes if a == 'BOARD_DEALING')
     missing = [k for k, v in facts.items() if not v]
     chk.ob('C17.cumulative', 'ACPCProtocolParser._parse', not missing, pf.loc,
            'the parser converts the cumulative raise size back to a street raise-to by subtracting what was committed on earlier streets; '
